@@ -73,6 +73,23 @@ def sizes(tier, quick, thorough):
     return thorough if tier == "thorough" else quick
 
 
+def reader_kind(rng, n, hot=()):
+    """a reader kind for an n-byte input: a small BufReader capacity, pseudo-random fragments, or explicit
+    seams (near the `hot` offsets when given: header fields, chunk headers, padding, the last bytes)"""
+    k = rng.below(4)
+    if n == 0:
+        return "cur"
+    if k == 0:
+        return "buf:%d" % rng.pick([1, 2, 3, 4, 5, 6, 7, 9, 12, 16, 18, 19])
+    if k == 1:
+        return "frag:%d:%d" % (rng.below(1000) + 1, rng.pick([1, 2, 3, 7]))
+    if k == 2 and hot:
+        hs = [rng.pick(list(hot)) for _ in range(rng.below(4) + 1)]
+        cuts = sorted(set(min(max(1, h + rng.below(3) - 1), n) for h in hs))
+        return "cut:" + ",".join(map(str, cuts))
+    return "cut:" + ",".join(str(x) for x in sorted(set(rng.below(n) + 1 for _ in range(rng.below(4) + 1))))
+
+
 def lzma_file(m, dict_field=None, size="auto"):
     if size == "auto":
         size = None if m["eos"] else len(m["out"])
@@ -183,6 +200,11 @@ def c01(run: Run):
                 data = lzma_file(m, df)
                 run.add("lzma us=hdr in=%s" % data.hex(), oracle=exp_ok_out(out), tag="c01:hdr",
                         nontrivial=nontriv)
+            if rng.chance(1, 3):
+                # through a reader that hands the stream over in pieces (seams in the header and the coder's first bytes)
+                data = lzma_file(m, d)
+                run.add("lzma us=hdr rk=%s in=%s" % (reader_kind(rng, len(data), [5, 13, 14, 15, 16, 17, 18]), data.hex()),
+                        oracle=exp_ok_out(out), tag="c01:reader", nontrivial=nontriv)
             if m["eos"]:
                 # end marker after a declared size: the decoder stops at the size
                 data = lzma_file(m, d, size=len(out))
@@ -250,12 +272,39 @@ def c02(run: Run):
         rnd = run.rng.bytes(70000)
         enc = pylzma.compress(rnd, format=pylzma.FORMAT_RAW, filters=[{"id": pylzma.FILTER_LZMA2, "preset": 0}])
         mats.append(dict(payload=enc, out=rnd, desc="liblzma incompressible 70000"))
+    rng = run.rng
+    # mid-stream compressed chunks of more than 64 KiB (control bytes 0xA1 / 0xC1 / 0xE1: the size's high
+    # bits share the control byte with the reset class), reaching back across the chunk boundary when allowed
+    reqs = []
+    for cls in (1, 2, 3, 3):
+        s1 = rng.below(1000)
+        back = 250 if cls == 3 else 330
+        # the byte before the boundary has non-zero upper bits (a literal context other than the initial one)
+        reqs.append(dict(kind="lzma2", chunks="C3:2.1.2:X40.%d.200,L%d|C%d:3.0.1:X300.%d.200,M%d.273*241,X25.%d.200|C0:3.0.1:L65,M3.7" % (
+            s1, rng.pick([229, 0x9C, 0x41]), cls, s1 + 1, back, s1 + 2)))
+    for b in core.script(reqs):
+        mats.append(dict(payload=b["payload"], out=b["out"], desc="bigmid:" + b.get("chunks", "")))
+    # concatenations: a stream minus its end byte, followed by a stream that opens with a dictionary reset
+    small = [m for m in mats if len(m["payload"]) < 4000]
+    for i in range(sizes(run.tier, 40, 400)):
+        a, b = rng.pick(small), rng.pick(small)
+        chb = parse_lzma2(b["payload"])
+        if not chb or chb[0]["kind"] == "end" or not (chb[0]["ctrl"] == 1 or chb[0]["ctrl"] >= 0xE0):
+            continue
+        mats.append(dict(payload=a["payload"][:-1] + b["payload"], out=a["out"] + b["out"], desc="concat"))
     for m in mats:
         ch = parse_lzma2(m["payload"])
         for c in ch:
             run.count("ctrl:%s" % ("end" if c["ctrl"] == 0 else "raw%d" % c["ctrl"] if c["ctrl"] < 3 else "%02x" % (c["ctrl"] & 0xE0)))
+            if c["ctrl"] >= 0x80 and c["ctrl"] & 0x1F and c["off"] > 0:
+                run.count("midstream-chunk>64KiB")
         run.add("lzma2 in=%s" % m["payload"].hex(), oracle=exp_ok_out(m["out"]), tag="c02",
                 nontrivial=len(ch) > 1)
+        if len(m["payload"]) < 20000 and ch:
+            # the same stream through a reader that hands it over in pieces (seams inside chunk headers)
+            hot = [c["off"] + d for c in ch for d in (1, 2, 3, 4, 5, 6)]
+            run.add("lzma2 rk=%s in=%s" % (reader_kind(rng, len(m["payload"]), hot), m["payload"].hex()),
+                    oracle=exp_ok_out(m["out"]), tag="c02:reader", nontrivial=len(ch) > 1)
         if m.get("gen") and run.rng.chance(1, 2):
             r = liblzma_raw2(m["payload"])
             spec_check(run, "lzma2 %s" % m["desc"], r[0] == "ok" and r[1] == m["out"])
@@ -297,6 +346,14 @@ def c03(run: Run):
         nonmin = any(b.widths for b in f["blocks"])
         run.count("nonminimal-mb" if nonmin else "minimal-mb")
         run.add("xz in=%s" % f["data"].hex(), oracle=exp_ok_out(f["out"]), tag="c03", nontrivial=len(f["blocks"]) > 0)
+        if len(f["data"]) < 20000:
+            # the same file through a reader that hands it over in pieces: seams inside the magic, the
+            # block headers and their padding, the index, the footer and right before the last bytes
+            n = len(f["data"])
+            hot = [1, 3, 5, 7, 11, n - 1, n - 2, n - 3, n - 11] + [vv[0] for k, vv in f["rec"].items() if not k.startswith("_")] + \
+                  [vv[0] + vv[1] for k, vv in f["rec"].items() if not k.startswith("_") and vv[1] > 1]
+            run.add("xz rk=%s in=%s" % (reader_kind(run.rng, n, [h for h in hot if 0 < h <= n]), f["data"].hex()),
+                    oracle=exp_ok_out(f["out"]), tag="c03:reader", nontrivial=len(f["blocks"]) > 0)
         if f["blocks"] and run.rng.chance(1, 4):
             # a sink that accepts only part of each write is still a sink: it must receive everything
             script = ",".join(run.rng.pick(["u1", "u3", "u7", "u100"]) for _ in range(60))
@@ -304,6 +361,26 @@ def c03(run: Run):
         if not nonmin and all(b.props[0] in (0x16, 40) for b in f["blocks"]):   # props byte 0 = 4 KiB dictionary: liblzma enforces it, lzma-rs ignores the byte (recorded leniency)
             r = liblzma_xz(f["data"])
             spec_check(run, "xz " + f["desc"], r[0] == "ok" and r[1] == f["out"])
+    # the dictionary size announced in the filter properties: a match at a distance of exactly that size is
+    # legal (the byte encodes 4 KiB, 6 KiB, 8 KiB, … ; 40 is the format's maximum, 4 GiB - 1)
+    reqs, pbs = [], []
+    for pbyte, d in ((0, 4096), (1, 6144), (2, 8192), (4, 16384), (40, 4096), (39, 8192)):
+        for dist in (d, d - 1) if pbyte < 39 else (d,):
+            reqs.append(dict(kind="lzma2", chunks="V1:%d.%d|C2:3.0.2:L65,M%d.16,L66,M%d.2" % (d, run.rng.below(1000), dist, dist)))
+            pbs.append(pbyte)
+    for pbyte, b in zip(pbs, core.script(reqs)):
+        blk = core.XzBlock(b["payload"], b["out"], decl_packed=run.rng.chance(1, 2), decl_unpacked=run.rng.chance(1, 2), props=bytes([pbyte]))
+        data = core.build_xz(run.rng.pick([0, 1, 4]), [blk])
+        run.add("xz in=%s" % data.hex(), oracle=exp_ok_out(b["out"]), tag="c03:dict-size-edge")
+        r = liblzma_xz(data)
+        spec_check(run, "xz dict-size edge props=%d" % pbyte, r[0] == "ok" and r[1] == b["out"])
+    # the two optional size fields of the block header, in every presence combination
+    for i in range(sizes(run.tier, 8, 40)):
+        m = run.rng.pick(lz2)
+        for dp in (False, True):
+            for du in (False, True):
+                data = core.build_xz(run.rng.pick([0, 1, 4]), [core.XzBlock(m["payload"], m["out"], decl_packed=dp, decl_unpacked=du)])
+                run.add("xz in=%s" % data.hex(), oracle=exp_ok_out(m["out"]), tag="c03:size-fields:%d%d" % (dp, du))
     # filter chains [LZMA2, LZMA2, …] (accepted by lzma-rs, a recorded leniency): every later filter
     # re-decodes the previous output, which must itself be an LZMA2 stream
     def raw_lzma2(data):
@@ -492,6 +569,10 @@ def stream_verdict(res):
 def c05_inputs(run, n):
     rng = run.rng
     mats = [m for m in core.gen_material("lzma", run.seed + 5, n * 3) if m["dict"] >= 4096 and len(m["out"]) < 40000][:n]
+    # far matches under a 4 KiB dictionary (distance of exactly / nearly the dictionary size)
+    far = core.script([dict(kind="lzma", lc=3, lp=0, pb=2, dict=4096, prog="X%d.%d.4,M%d.9,L65,M%d.3%s" % (
+        4200, rng.below(1000), rng.pick([4096, 4095, 3000]), rng.pick([4096, 2049]), rng.pick(["", ",E"]))) for _ in range(2)])
+    mats = far + mats
     inputs = []
     for m in mats:
         base = lzma_file(m)
@@ -509,6 +590,9 @@ def c05_inputs(run, n):
             inputs.append((base[:pos] + bytes([base[pos] ^ (1 << rng.below(8))]) + base[pos + 1:], "hdr", "bitflip"))
         inputs.append((base + rng.bytes(rng.pick([1, 2, 30])), "hdr", "trailing"))
         inputs.append((base + rng.pick([b"\x00", b"\x00\x00\x00\x00\x00\x00", rng.bytes(25)]), "hdr", "trailing@%d" % len(base)))
+        if m["dict"] == 4096:
+            # a header announcing less than 4 KiB means 4 KiB (one rule, in the header parser, for both decoders)
+            inputs.append((lzma_file(m, dict_field=rng.pick([0, 0, 1, 100, 2048, 4095])), "hdr", "small-dict-field"))
         inputs.append((lzma_file(m, size=L + 1), "hdr", "size+1"))
         if L > 0:
             inputs.append((lzma_file(m, size=L - 1), "hdr", "size-1"))
@@ -563,6 +647,8 @@ def c15(run: Run):
     rng = run.rng
     mats = [m for m in core.gen_material("lzma", run.seed + 15, 200) if m["dict"] >= 4096 and 0 < len(m["out"]) < 30000]
     mats = mats[:sizes(run.tier, 12, 100)]
+    mats += core.script([dict(kind="lzma", lc=3, lp=0, pb=2, dict=4096, prog="X%d.%d.4,M%d.9,L65,M%d.3%s" % (
+        4200, rng.below(1000), rng.pick([4096, 4095, 3000]), rng.pick([4096, 2049]), rng.pick(["", ",E"])))])
     # outputs several times larger than the dictionary (laps of the window, copies ending on lap boundaries)
     mats += [m for m in core.gen_material("lzmawrap", run.seed + 15, sizes(run.tier, 3, 20)) if len(m["out"]) > m["dict"]]
     groups = []
@@ -575,6 +661,9 @@ def c15(run: Run):
         # 13-byte header whose size field is read and ignored
         forms.append(("hup:%s" % ("none" if m["eos"] else L),
                       lzma_header(m["lc"], m["lp"], m["pb"], m["dict"], rng.pick([0, 7, 2**63])) + m["payload"], 13))
+        if m["dict"] == 4096:
+            # a header announcing less than 4 KiB means 4 KiB
+            forms.append(("hdr", lzma_file(m, dict_field=rng.pick([0, 1, 100, 2048, 4095])), 13))
         for us, data, hl in forms:
             tr = run.add("trace us=%s in=%s" % (us, data.hex()), oracle=None, cmp=False, tag="c15:trace", nontrivial=False)
             cuts = sorted(set([hl + 5, hl + 6, hl + 7, hl + 12, len(data) // 2, len(data) - 1, len(data)] +
@@ -663,18 +752,43 @@ def c16(run: Run):
         bad = bytes(bad) + bytes(40)
         parts = split_by(bad, chunkings(rng, len(bad), 3)[-1])
         extra = [rng.bytes(rng.pick([0, 1, 30])) for _ in range(3)]
-        ops = ";".join(["w:" + c.hex() for c in parts] + ["f"] + ["w:" + e.hex() for e in extra] + ["f", "w:" + good.hex(), "fin"])
+        # `wx` is the trait's own write_all: after a failure it must not report its (non-empty) buffer as written
+        ops = ";".join(["w:" + c.hex() for c in parts] + ["f"] + ["w:" + e.hex() for e in extra] +
+                       ["f", "wx:" + rng.bytes(rng.pick([1, 7, 40])).hex(), "w:" + good.hex(), "wx:" + good.hex(), "fin"])
         run.add("stream us=hdr ops=%s" % ops, oracle=latch_oracle, tag="c16:corrupt")
         # sink failure mid-stream latches too
-        run.add("stream us=hdr sink=f ops=%s" % ";".join(["wa:" + good.hex(), "w:" + good.hex(), "f", "w:00", "fin"]),
+        run.add("stream us=hdr sink=f ops=%s" % ";".join(["wa:" + good.hex(), "w:" + good.hex(), "f", "w:00", "wx:00", "fin"]),
                 oracle=latch_oracle, tag="c16:sinkfault")
         # (b) size reached: further writes consume nothing
         sized = lzma_file(m, size=L)
-        ops = ";".join(["wa:" + sized.hex()] + ["w:" + e.hex() for e in extra] + ["w:" + good.hex(), "f", "fin"])
+        ops = ";".join(["wa:" + sized.hex()] + ["w:" + e.hex() for e in extra] + ["wx:" + rng.bytes(rng.pick([1, 9])).hex(), "w:" + good.hex(), "f", "fin"])
         run.add("stream us=hdr ops=%s" % ops, oracle=size_latch_oracle(m["out"]), tag="c16:size-reached")
         # over-long input in one go
-        run.add("stream us=hdr ops=%s" % ";".join(["wa:" + (sized + rng.bytes(50)).hex(), "w:aa", "fin"]),
+        run.add("stream us=hdr ops=%s" % ";".join(["wa:" + (sized + rng.bytes(50)).hex(), "w:aa", "wx:bb", "fin"]),
                 oracle=size_latch_oracle(m["out"]), tag="c16:overlong")
+        # (a2) a header announcing a dictionary below 4 KiB (0 included) is a valid header: no call panics
+        if m["dict"] == 4096 and rng.chance(1, 2):
+            small = lzma_file(m, dict_field=rng.pick([0, 0, 1, 2048, 4095]))
+            parts = split_by(small, chunkings(rng, len(small), 3)[-1])
+
+            def valid_oracle(res, meta, peak, out=m["out"]):
+                if stream_verdict(res) != "ok":
+                    return "a valid stream fed in pieces did not finish successfully: %s" % res[:100]
+                return None if outfield(res) == out_repr(out) else "a valid stream fed in pieces produced the wrong output"
+            run.add("stream us=hdr ops=%s" % ";".join(["wa:" + c.hex() for c in parts] + ["fin"]), oracle=valid_oracle, tag="c16:small-dict-field")
+        # (a3) the 5-byte header (size supplied by the caller) arriving in small pieces: header + preamble is
+        # 10 bytes, the staging buffer holds 18
+        if rng.chance(1, 2):
+            up = lzma_header(m["lc"], m["lp"], m["pb"], m["dict"], "skip") + m["payload"]
+            c = rng.pick([1, 2, 3, 4, 5, 6, 7, 8, 9])
+            pieces = [up[i:i + c] for i in range(0, min(len(up), 24), c)] + ([up[((min(len(up), 24) + c - 1) // c) * c:]] if len(up) > 24 else [])
+
+            def valid_oracle2(res, meta, peak, out=m["out"]):
+                if stream_verdict(res) != "ok":
+                    return "a valid stream (5-byte header) fed in pieces did not finish successfully: %s" % res[:100]
+                return None if outfield(res) == out_repr(out) else "a valid stream (5-byte header) fed in pieces produced the wrong output"
+            run.add("stream us=up:%s ops=%s" % ("none" if m["eos"] else L, ";".join(["wa:" + x.hex() for x in pieces if x] + ["fin"])),
+                    oracle=valid_oracle2, tag="c16:short-header-pieces")
     # (b2) the declared size falls strictly inside a copy: the output passes it without ever being equal
     for m in [x for x in mats if x.get("cum")][:sizes(run.tier, 15, 120)]:
         cum = set(int(c) for c in m["cum"].split(",") if c)
@@ -753,7 +867,10 @@ def latch_oracle(res, meta, peak):
         return None
     sink_len = toks[failed_at].split("@")[1]
     for t in toks[failed_at + 1:]:
-        if t.startswith("w"):
+        if t.startswith("wx"):
+            if t != "wxerr@" + sink_len:
+                return "write_all after a failed write did not fail (or delivered bytes): %s" % t
+        elif t.startswith("w"):
             if not (t.startswith("w0@") or t.startswith("wa0@")):
                 return "a write after a failed write reported progress or failed differently: %s" % t
             if t.split("@")[1] != sink_len:
@@ -774,7 +891,10 @@ def size_latch_oracle(expected):
             return "feeding a valid sized stream failed: %s" % toks[:1]
         base = toks[0].split("@")[1]
         for t in toks[1:]:
-            if t.startswith("w") and not t.startswith("w0@" + base):
+            if t.startswith("wx"):
+                if t != "wxerr@" + base:
+                    return "write_all after the declared size was reached reported its buffer as written: %s" % t
+            elif t.startswith("w") and not t.startswith("w0@" + base):
                 return "a write after the declared size was reached consumed input or changed the output: %s" % t
         if "finok" not in toks:
             return "finish failed after the declared size was reached"
